@@ -276,8 +276,11 @@ func runC18(ctx *Ctx) error {
 	r := ctx.R
 	for i := 0; i < ctx.N(1500, 30000); i++ {
 		lat1 := float64(r.Intn(1700)-850) / 10
+		if r.Chance(0.15) {
+			lat1 = Pick(r, []float64{-1, 1}) * (84 + float64(r.Intn(580))/100) // the default method has no latitude limit: up to 89.8 degrees
+		}
 		lon1 := float64(r.Intn(3400)-1700) / 10
-		dist := Pick(r, []float64{0.1, 1, 25, 300, 5000, 9000, 60000, 700000, 1000000}) * (0.5 + float64(r.Intn(100))/100)
+		dist := Pick(r, []float64{0.1, 1, 25, 60, 300, 5000, 9000, 60000, 700000, 1000000}) * (0.5 + float64(r.Intn(100))/100)
 		lat2, lon2 := sphDest(lat1, lon1, float64(r.Intn(3600))/10, dist/6378137)
 		in := c18Input{Kind: "pair", Lat1: lat1, Lon1: lon1, Lat2: lat2, Lon2: lon2}
 		if r.Chance(0.05) {
